@@ -190,6 +190,38 @@ CHECKS = {
              "settings, keys, and real DDPG/TD3/TD3+LAP/TD7/MR.Q/PETS runs.",
         ref="DESIGN.md §5 C10",
     ),
+    "C03": dict(
+        technique="runtime monitoring: float64 reference oracle built from the "
+                  "monitor's own forward passes through the same real modules; "
+                  "metamorphic oracles on the real loss (batch permutation, "
+                  "terminated-row successor swap compared bitwise, zero gradient "
+                  "into target modules and bootstrap inputs, 2-row decomposition, "
+                  "batch size 1)",
+        text="Exploration over losses x shapes x termination patterns x discount "
+             "factors x parameter scales with independently initialised online "
+             "and target networks.",
+        ref="DESIGN.md §5 C03",
+    ),
+    "C05": dict(
+        technique="runtime monitoring: bitwise before/after comparison of every "
+                  "module and optimizer reachable from each real update routine; "
+                  "in-loop attribution of parameter changes between consecutive "
+                  "snapshots to the routine that ran in that segment",
+        text="Exploration over all update routines with random batches and "
+             "independently initialised modules, and real training traces of ten "
+             "off-policy routines.",
+        ref="DESIGN.md §5 C05",
+    ),
+    "C09": dict(
+        technique="runtime monitoring: replay-with-perturbation non-interference "
+                  "test - three fresh processes per configuration (equal seeds "
+                  "with scrambled PYTHONHASHSEED / global RNG state / start time, "
+                  "and seed+1), canonical digests compared field by field; "
+                  "tripwire on global RNG calls from repository frames",
+        text="Exploration over every training routine on scripted and seeded "
+             "Gymnasium environments with settings that exercise learning.",
+        ref="DESIGN.md §5 C09",
+    ),
 }
 
 NOT_YET = {}
